@@ -1433,6 +1433,48 @@ func (up4 *UP4) sendCreate(all PacketForwardingRules, updated PacketForwardingRu
 	return nil
 }
 
+// releaseStaleTunnelPeers drops the references that updated FARs still hold on tunnel peers
+// they no longer use (the gNB changed, or the FAR stopped forwarding) and removes peers that
+// are left without user. It runs after the sessions entries point to the new peers.
+func (up4 *UP4) releaseStaleTunnelPeers(fars []far) {
+	up4.tunnelPeerMu.Lock()
+	defer up4.tunnelPeerMu.Unlock()
+
+	for _, far := range fars {
+		ref := tnlPeerReference{far.fseID, far.farID}
+		usesPeer := far.Forwards() && far.dstIntf == ie.DstInterfaceAccess && far.tunnelTEID != 0
+		current := tunnelParams{
+			tunnelIP4Src: ip2int(up4.accessIP.IP),
+			tunnelIP4Dst: far.tunnelIP4Dst,
+			tunnelPort:   far.tunnelPort,
+		}
+
+		for params, peer := range up4.tunnelPeerIDs {
+			if (usesPeer && params == current) || !peer.usedBy.Contains(ref) {
+				continue
+			}
+
+			peer.usedBy.Remove(ref)
+
+			if peer.usedBy.Cardinality() != 0 {
+				continue
+			}
+
+			entry, err := up4.p4RtTranslator.BuildGTPTunnelPeerTableEntry(peer.id, params)
+			if err != nil {
+				logger.PfcpLog.Errorln("failed to build GTP tunnel peer entry to remove")
+				continue
+			}
+
+			if err := up4.p4client.ApplyTableEntries(p4.Update_DELETE, entry); err != nil {
+				logger.PfcpLog.Errorln("failed to remove GTP tunnel peer")
+			}
+
+			up4.unsafeReleaseAllocatedGTPTunnelPeer(params)
+		}
+	}
+}
+
 func (up4 *UP4) sendUpdate(all PacketForwardingRules, updated PacketForwardingRules) error {
 	// Update PDR IE might modify UE IP <-> F-SEID mappings
 	for _, p := range updated.pdrs {
@@ -1446,6 +1488,8 @@ func (up4 *UP4) sendUpdate(all PacketForwardingRules, updated PacketForwardingRu
 	if err := up4.modifyUP4ForwardingConfiguration(all.pdrs, all.fars, all.qers, p4.Update_MODIFY); err != nil {
 		return err
 	}
+
+	up4.releaseStaleTunnelPeers(updated.fars)
 
 	return nil
 }
